@@ -244,6 +244,39 @@ func tdScenarios(thorough bool) []tdScenario {
 			return []func(){cutC, cutP}, nil, false, nil
 		}})
 	}
+	// (3b) many publishers held up by one stalled subscriber that connected last,
+	//      then Server.Close: stopping the publishers can only finish once the
+	//      subscriber is being stopped as well, however many publishers wait
+	for _, npub := range []int{2, 5, 9} {
+		npub := npub
+		if !thorough && npub != 5 {
+			continue
+		}
+		out = append(out, tdScenario{name: fmt.Sprintf("%d-publishers-held-up-by-one-subscriber/server-close", npub), run: func(t *tdWorld) ([]func(), map[string]bool, bool, func()) {
+			var pubs []*tdConn
+			for i := 0; i < npub; i++ {
+				pubs = append(pubs, t.connect(fmt.Sprintf("P%d", i), 0, 65535, false))
+			}
+			c := t.connect("C", 512, 65535, false)
+			t.subscribe("C", "t", 0)
+			// fill C's outgoing ring, then one more message from every publisher: each
+			// publisher's processor parks on C's ring
+			for i := 0; i < 2; i++ {
+				pubs[0].rc.Send(bigPub("t", 8000, byte(i)))
+			}
+			t.settleExcept()
+			for i, p := range pubs {
+				p.rc.Send(bigPub("t", 4000, byte(10+i)))
+			}
+			t.settleExcept()
+			return []func(){func() {
+				c.ended = true
+				for _, p := range pubs {
+					p.ended = true
+				}
+			}}, nil, true, nil
+		}})
+	}
 	// (4) cross-blocked pair: each one's processor is parked on the other's full ring
 	for _, order := range []string{"A-then-B", "B-then-A", "server-close"} {
 		order := order
@@ -341,7 +374,7 @@ func C16(c *core.Ctx) {
 	if c.Thorough() {
 		dev = 2
 	}
-	c.Rep.Bound = fmt.Sprintf("SCHED: end cause (DISCONNECT, cut, keep-alive expiry in virtual time, garbage packet, Server.Close) x buffer condition (idle; own outbound ring full with a client that stopped reading; publisher held up by a third party's full ring; cross-blocked pair; packet larger than the ring can take; partial packet in the inbound ring) x order of the ends; set-up under the default schedule, from the first ending action on every schedule that deviates from the default schedule at <= %d points", dev)
+	c.Rep.Bound = fmt.Sprintf("SCHED: end cause (DISCONNECT, cut, keep-alive expiry in virtual time, garbage packet, Server.Close) x buffer condition (idle; own outbound ring full with a client that stopped reading; publisher held up by a third party's full ring; 2/5/9 publishers held up by one stalled subscriber that connected last, then Server.Close; cross-blocked pair; packet larger than the ring can take; partial packet in the inbound ring) x order of the ends; set-up under the default schedule, from the first ending action on every schedule that deviates from the default schedule at <= %d points", dev)
 	c.Rep.Rule = "oracle at quiescence (reached without further environment action = bounded time): the goroutines of every ended connection are gone, its clean session is out of the store, its subscription out of the topic tree, its will published (not after DISCONNECT), Server.Close has returned and then no library goroutine remains; a publisher that was held up by the ended subscriber answers a PINGREQ again"
 	for _, sc := range tdScenarios(c.Thorough()) {
 		if !c.Mine() {
